@@ -129,6 +129,7 @@ def run(ctx):
             m = U.rand_tx(rng, valid=False) if rng.chance(1, 2) else U.rand_rx(rng, valid=False)
         msgs.append((m, rng.chance(1, 2)))
     gen_obs = [U.do_gen(m, legacy) for m, legacy in msgs]
+    U.gen_reuse_check(ctx, msgs, gen_obs, "c04-gen-history")
     idx = list(range(len(msgs)))
     op = lambda m: "w_trxd_tx_gen" if m["kind"] == "tx" else "w_trxd_rx_gen"
     ctx.correspond("gen_msg", "Trxd", idx,
